@@ -246,7 +246,7 @@ impl Prop for C16 {
         Ok(())
     }
     fn rule(&self) -> String {
-        "generated (lat, lon, two elevations) from a mixture: uniform, Kaaba meridian and antimeridian +-0.5 deg, date line, near the Kaaba, near the poles, a ring 0.1-0.3 deg around the Kaaba and its antipode, and points within 1e-9..1e-3 deg of the curve where the bearing is exactly due east/west (constructed by bisecting the oracle); points within 0.1 deg of the Kaaba/antipode are constructed out. Every case outside that exemption is non-trivial; distinct = distinct hash of (lat, lon, elevations)".into()
+        "generated (lat, lon, two elevations) from a mixture: uniform, Kaaba meridian and antimeridian +-0.5 deg, date line, near the Kaaba, near the poles, a ring 0.1-0.3 deg around the Kaaba and its antipode, and points within 1e-9..1e-3 deg of the curve where the bearing is exactly due east/west (constructed by bisecting the oracle); points within 0.1 deg of the Kaaba/antipode are constructed out. Every case outside that exemption is non-trivial; distinct = distinct hash of (lat, lon, elevations) Every query is preceded by a sibling query (a fraction of a microdegree or 40 degrees away) on the same thread.".into()
     }
     fn assumptions(&self) -> Vec<String> {
         vec![
